@@ -832,6 +832,24 @@ def check_coo(ctx, m, minfo, uspec, vspec, bk, q, rng):
             if s.toarray().shape != want.shape or not close(float(np.abs(s.toarray() - want).max()) if A.size else 0.0,
                                                              3 * scale):
                 bad(f"COOData {nm} is not the sum of the tensors", "coo-add", via=nm)
+            # per-cell matrices of a SUM: either refused, or matrices that scatter to the tensor of the sum
+            try:
+                Ls = s.tolocal()
+            except NotImplementedError:
+                ctx.count("coo-sum-tolocal:refused")
+                continue
+            ctx.count("coo-sum-tolocal:returned")
+            ed_u, ed_v = ub.element_dofs, vb.element_dofs
+            ok_l = Ls.ndim == 3 and Ls.shape[1:] == (vb.Nbfun, ub.Nbfun) and Ls.shape[0] % max(1, ed_u.shape[1]) == 0
+            if ok_l:
+                S = np.zeros(want.shape, dtype=Ls.dtype)
+                for kk in range(Ls.shape[0]):
+                    k = kk % ed_u.shape[1]
+                    S[np.ix_(ed_v[:, k], ed_u[:, k])] += Ls[kk]
+                ok_l = close(float(np.abs(S - want).max()) if want.size else 0.0, 3 * scale)
+            if not ok_l:
+                bad(f"tolocal() of the COOData {nm} returns per-cell matrices that do not scatter to the tensor of the "
+                    f"sum (it used to be refused with NotImplementedError)", "coo-add-tolocal", via=nm)
     except Exception as ex:
         ctx.violation("COOData operation raised " + exc_kind(ex), dict(replay, err=repr(ex)),
                       dict(sig, what="raise-coo-op"))
